@@ -155,9 +155,9 @@ func main() {
 
 	// 2. random histories
 	r := hx.NewRand(o.Seed)
-	n := 60 * o.Scale
+	n := 1500 * o.Scale
 	if o.Tier == "thorough" {
-		n = 3000 * o.Scale
+		n = 60000 * o.Scale
 	}
 	for _, st := range stacks {
 		m := n
